@@ -1,5 +1,6 @@
 """C14 — calls bind arguments to fresh parameters; `this` follows the access
 path (structural clauses)."""
+import anchors
 import mir
 import ops
 import prov
@@ -96,7 +97,7 @@ def rule_R14_1(ctx):
     lists = [g for g in prog.hand_fns() if not g.is_closure and not g.from_expansion and g.locals
              and "std::vec::Vec<eval::value::SourcedValue>" in g.locals[0]
              and g.locals[0].startswith("std::result::Result<")
-             and any(t == "&std::vec::Vec<ast::ListItem>" for t in g.locals[1:g.arg_count + 1])]
+             and any(anchors.is_seq_ref(t, "ast::ListItem") for t in g.locals[1:g.arg_count + 1])]
     if not r.require_floor("list-item evaluator", len(lists), 1):
         return r
     g = lists[0]
@@ -192,6 +193,17 @@ def rule_R14_2(ctx):
     return r
 
 
+def _var_name(f, op):
+    cp = f.canon_op(op)
+    if cp[0][0] == "call":
+        cc = f.call_at(cp[0][1])
+        if cc is not None and cc.args:
+            c2 = f.canon_op(cc.args[0])
+            if c2[0][0] == "const":
+                return c2[0][1]
+    return None
+
+
 def rule_R14_3(ctx):
     prog = ctx.prog
     r = RuleResult("R14.3", "a `this` binding is added to a call iff the "
@@ -202,6 +214,15 @@ def rule_R14_3(ctx):
     if f is None:
         r.anchor_missing("call evaluator")
         return r
+    def this_sites(f):
+        return [1 for bb, i, pl, kd, aops, sp in f.aggregates(RAWEXPR, "Var")
+                if _var_name(f, aops[0]) in ("'this'", '"this"')]
+    if not this_sites(f):
+        # the bindings may be assembled in a private helper of the call evaluator
+        import inline
+        fv = inline.view(prog, getattr(f, "base", f))
+        if this_sites(fv):
+            f = fv
     sites = []
     for bb, i, pl, kd, aops, sp in f.aggregates(RAWEXPR, "Var"):
         cp = f.canon_op(aops[0])
